@@ -163,6 +163,24 @@ func run(pr *rules.Property, prop, tier, repo, verif string, seed int, verbose b
 		return 2
 	}
 	c := core.NewCtx(p, prop, tier)
+	// what was done to the tree before the rules looked at it (nothing, on the reference tree)
+	if p.Aliases != nil {
+		for _, n := range p.Aliases.Notes {
+			c.Notes = append(c.Notes, "alias: "+n)
+		}
+	}
+	if p.Norm != nil && len(p.Norm.NewFuncs) > 0 {
+		c.Notes = append(c.Notes, fmt.Sprintf("normalisation: %d functions not in the reference inventory (%s); %d calls expanded into their callers, %d left as calls, %d helpers dropped after full expansion",
+			len(p.Norm.NewFuncs), strings.Join(p.Norm.NewFuncs, ", "), len(p.Norm.Sites), len(p.Norm.Skips), len(p.Norm.Removed)))
+		for _, sk := range p.Norm.Skips {
+			c.Notes = append(c.Notes, fmt.Sprintf("normalisation: %s -> %s not expanded (%s)", sk.Caller, sk.Callee, sk.Reason))
+		}
+		for _, n := range p.Norm.Notes {
+			c.Notes = append(c.Notes, "normalisation: "+n)
+		}
+	} else {
+		c.Notes = append(c.Notes, "normalisation: every function of the tree is in the reference inventory; nothing was expanded or renamed")
+	}
 	pr.Run(c)
 	if !skipFixtures {
 		if err := rules.RunFixtures(c, pr, verif); err != nil {
